@@ -83,6 +83,8 @@ D_ZPad   == DefStruct("ZPad", TRUE, FALSE, <<"C">>, <<>>, <<>>,
                       <<GF("a", U8), GF("b", U32), GF("c", U16)>>)
 D_ZA16   == DefStruct("ZA16", TRUE, FALSE, <<"C", "align(16)">>, <<>>, <<>>, <<GF("x", U32)>>)
 D_ZA64   == DefStruct("ZA64", TRUE, FALSE, <<"C", "align(64)">>, <<>>, <<>>, <<GF("x", U32)>>)
+\* 16 bytes of fields: repr(align(8)) and repr(align(16)) give the same size, only the attribute's argument differs
+D_ZB16   == DefStruct("ZB16", TRUE, FALSE, <<"C", "align(16)">>, <<>>, <<>>, <<GF("lo", U64), GF("hi", U64)>>)
 D_ZUnit  == DefStruct("ZUnit", TRUE, FALSE, <<"C">>, <<>>, <<>>, <<>>)
 D_ZNest  == DefStruct("ZNest", TRUE, FALSE, <<"C">>, <<>>, <<>>,
                       <<GF("p", Inst(D_ZPad, <<>>, <<>>)), GF("q", U64)>>)
@@ -122,7 +124,7 @@ D_DC     == DefStruct("DC", FALSE, FALSE, <<>>, <<[name |-> "N", ck |-> "usize"]
 D_G3     == DefStruct("G3", FALSE, FALSE, <<>>, <<>>, <<"A", "B", "C">>,
                       <<GF("a", Param(1)), GF("b", Param(2)), GF("c", Param(3))>>)
 
-CoreDefs == <<D_G3, D_ZPad, D_ZA16, D_ZA64, D_ZUnit, D_ZNest, D_ZArr, D_ZT, D_ZE, D_ZEP, D_ZPh, D_ZC,
+CoreDefs == <<D_G3, D_ZPad, D_ZA16, D_ZA64, D_ZB16, D_ZUnit, D_ZNest, D_ZArr, D_ZT, D_ZE, D_ZEP, D_ZPh, D_ZC,
               D_DS, D_DZ, D_DT, D_DE, D_G, D_G2, D_GE, D_DC>>
 
 ZPad == Inst(D_ZPad, <<>>, <<>>)    ZA16 == Inst(D_ZA16, <<>>, <<>>)
@@ -227,7 +229,10 @@ Nested ==
    G3(Vec(U32), Vec(U64), StringT), G3(Vec(U16), BoxSlice(ZPad), Vec(U8)), G3(StringT, Vec(U128), Vec(ZA16)),
    G3(Vec(U64), U8, Vec(U32)), GE(Vec(U32), Vec(U64)),
    \* wide alignment units: gaps of more than 16 bytes, followed by blocks of a smaller unit
-   G3(StringT, Vec(ZA64), Vec(U64)), G3(Vec(U8), BoxSlice(ZA64), Vec(U32)), Vec(Option(ZA64)), G3(U8, ZA64, Vec(U16))}
+   G3(StringT, Vec(ZA64), Vec(U64)), G3(Vec(U8), BoxSlice(ZA64), Vec(U32)), Vec(Option(ZA64)), G3(U8, ZA64, Vec(U16)),
+   \* sequences of deep-copy items that take no byte in the stream: more items than remaining bytes
+   Vec(Array(0, StringT)), BoxSlice(Array(0, Vec(U32))), Vec(Array(0, DS)),
+   G3(Vec(Array(0, StringT)), U8, Vec(U32)), G3(BoxSlice(Array(0, Vec(U32))), Vec(U16), U8)}
 
 \* Named universes.  An operator with a parameter, on purpose: TLC evaluates every
 \* zero-arity constant definition at start-up, and the big closures cost minutes.
